@@ -3,7 +3,7 @@
 (* observed on the real loaders is replayed against the specification.  One     *)
 (* execution per case, concatenated with Reset lines:                           *)
 (*   {"e":"Gen","f":fmt}  {"e":"Inject","k":kind,"p":pos}                        *)
-(*   {"e":"Observe","id":..,"sym":..,"values":n,"invalid":n,"alien":n}           *)
+(*   {"e":"Observe","id":..,"sym":..,"values":n,"entries":n,"invalid":n,"alien":n}*)
 (*   {"e":"Reset"}                                                               *)
 (* Gen / Inject are the actions of Loader itself, so an observation can only    *)
 (* be attributed to a case the model really has, and the document the bounds    *)
@@ -36,7 +36,7 @@ TInject == /\ IsEv("Inject") /\ fmt # ""
            /\ Inject(TraceLog[l].k, TraceLog[l].p)
            /\ l' = l + 1 /\ UNCHANGED rejected
 
-Obs(e) == [sym |-> e.sym, values |-> e.values, invalid |-> e.invalid, alien |-> e.alien]
+Obs(e) == [sym |-> e.sym, values |-> e.values, entries |-> e.entries, invalid |-> e.invalid, alien |-> e.alien]
 
 TObserve == /\ IsEv("Observe") /\ fmt # ""
             /\ LET e == TraceLog[l]
